@@ -236,8 +236,71 @@ def load_time_queries(idx, A):
             n_seen += 1
             if K.src(K.expand(fi, key)) in own_keys or K.src(key) in own_keys:
                 continue
+            if _after_loading_loop(fi, n) or _miss_changes_nothing(idx, fi, n):
+                continue
             out.append((fi, n, K.src(key)))
     return out, n_seen
+
+
+def _after_loading_loop(fi, site):
+    """the site lies after the loop that adds the commands (every command is in the table by then: no order dependence)"""
+    loops = [lp for lp in own_nodes(fi.node) if isinstance(lp, ast.For) and any(isinstance(c, ast.Call) and isinstance(c.func, ast.Attribute) and c.func.attr == "add_command" for st in lp.body for c in ast.walk(st))]
+    if not loops:
+        return False
+    inside = any(site is x for lp in loops for x in ast.walk(lp))
+    return not inside and all(getattr(site, "lineno", 0) > (lp.end_lineno or lp.lineno) for lp in loops)
+
+
+def _miss_changes_nothing(idx, fi, site):
+    """The lookup only adds behaviour when the name is already there: within one pass of the enclosing loop no raise is reachable
+    from the 'not found' outcome that is not also reachable from the 'found' outcome.  Decided for `k in table` / `k not in table`
+    tests and for `v = table.get(k)` followed by a test of v; anything else is treated as order dependent."""
+    cfg = K.cfg_of(idx, fi)
+    heads = set(cfg.find("iter"))
+
+    def raises_from(nodes):
+        nodes = [x for x in nodes if x not in heads]
+        if not nodes:
+            return set()
+        return {r for r in cfg.reachable(nodes, avoid=heads) if r.kind == "raise"}
+
+    def decided(test, miss_label):
+        miss = [m for m, l in test.succ if l == miss_label]
+        hit = [m for m, l in test.succ if l != miss_label and l in ("true", "false")]
+        if not miss or not hit:
+            return False
+        return not (raises_from(miss) - raises_from(hit))
+
+    if isinstance(site, ast.Compare):
+        ts = [t for t in cfg.find("test") if t.ast is site]
+        if not ts:
+            return False
+        return all(decided(t, "true" if isinstance(site.ops[0], ast.NotIn) else "false") for t in ts)
+    if isinstance(site, ast.Call):
+        # v = table.get(k)
+        tgt = None
+        for st in own_nodes(fi.node):
+            if isinstance(st, ast.Assign) and st.value is site and len(st.targets) == 1 and isinstance(st.targets[0], ast.Name):
+                tgt = st.targets[0].id
+        if tgt is None:
+            return False
+        tests = []
+        for t in cfg.find("test"):
+            e = t.ast
+            label = None
+            if isinstance(e, ast.Call) and isinstance(e.func, ast.Name) and e.func.id == "isinstance" and e.args and isinstance(e.args[0], ast.Name) and e.args[0].id == tgt:
+                label = "false"
+            elif isinstance(e, ast.Compare) and len(e.ops) == 1 and isinstance(e.left, ast.Name) and e.left.id == tgt and isinstance(e.comparators[0], ast.Constant) and e.comparators[0].value is None:
+                label = "true" if isinstance(e.ops[0], (ast.Is, ast.Eq)) else "false"
+            elif isinstance(e, ast.Name) and e.id == tgt:
+                label = "false"
+            if label is not None and getattr(e, "lineno", 0) >= site.lineno:
+                tests.append((t, label))
+        if not tests:
+            return False
+        # every other read of v must sit behind one of those tests' found-branch
+        return all(decided(t, lab) for t, lab in tests)
+    return False
 
 
 def _table_iter(expr, sn, attr):
@@ -512,6 +575,9 @@ def list_clean_total(idx, fi):
         v = r.value
         if isinstance(v, ast.Call) and isinstance(v.func, ast.Name) and v.func.id in ("list", "tuple") and len(v.args) == 1:
             v = v.args[0]
+        if isinstance(v, (ast.ListComp, ast.GeneratorExp)) and _identity_value_type(idx, fi, r, sn) and _unwrap_only(v, raw):
+            why.append("under `type(self.value_type) is Parameter` (whose clean hands the value back) every item is unwrapped")
+            continue
         if isinstance(v, (ast.ListComp, ast.GeneratorExp)):
             ok, w = _comp_total(v, raw, sn)
             if ok is None:
@@ -555,6 +621,35 @@ def _is_value_type_clean(call, sn):
         and isinstance(call.func.value.value, ast.Name)
         and call.func.value.value.id == sn
     )
+
+
+def _identity_value_type(idx, fi, ret, sn):
+    """the return sits under `if type(self.value_type) is Parameter:` and the base Parameter.clean returns its argument"""
+    for iff in own_nodes(fi.node):
+        if isinstance(iff, ast.If) and any(ret is x for b in iff.body for x in ast.walk(b)):
+            t = iff.test
+            if isinstance(t, ast.Compare) and len(t.ops) == 1 and isinstance(t.ops[0], (ast.Is, ast.Eq)) and K.src(t.left).replace(" ", "") == "type(%s.value_type)" % sn:
+                r = idx.resolve(fi.module, t.comparators[0], fi)
+                if r and r[0] == "class" and r[1].name == "Parameter":
+                    base_clean = r[1].methods.get("clean")
+                    if base_clean is not None:
+                        rets = [n for n in own_nodes(base_clean.node) if isinstance(n, ast.Return)]
+                        arg = base_clean.node.args.args[1].arg
+                        if rets and all(isinstance(x.value, ast.Name) and x.value.id == arg for x in rets):
+                            return True
+    return False
+
+
+def _unwrap_only(comp, raw):
+    """[item.value if isinstance(item, Argument) else item for item in <raw>]: every item, unwrapped"""
+    if len(comp.generators) != 1:
+        return False
+    g = comp.generators[0]
+    if g.ifs or not (isinstance(g.iter, ast.Name) and g.iter.id == raw) or not isinstance(g.target, ast.Name):
+        return False
+    e = comp.elt
+    t = g.target.id
+    return (isinstance(e, ast.IfExp) and K.src(e.body) == "%s.value" % t and K.src(e.orelse) == t and isinstance(e.test, ast.Call) and K.src(e.test.func) == "isinstance" and K.src(e.test.args[0]) == t and "Argument" in K.src(e.test.args[1]))
 
 
 def _comp_total(comp, raw, sn):
